@@ -19,7 +19,7 @@ use proptest::prelude::*;
 use proptest::strategy::BoxedStrategy;
 use serde_json::{json, Value};
 
-pub const DIMS: [&str; 8] = ["capacity", "id", "alpha", "byte-value", "datum-length", "group-shape", "edges", "char"];
+pub const DIMS: [&str; 11] = ["capacity", "id", "alpha", "byte-value", "datum-length", "group-shape", "edges", "char", "vertex-count", "unread-count", "big-image"];
 
 pub struct Scenario {
     pub cfg: Cfg,
@@ -75,13 +75,30 @@ pub fn points(dim: &str, thorough: bool, prop: &str) -> Vec<u64> {
         "datum-length" => (0..=if thorough { 9000 } else { 2100 }).collect(),
         "group-shape" => (0..=14u64).flat_map(|g| (2..=16u64).map(move |m| g * 32 + m)).collect(),
         "edges" => (0..9u64).flat_map(|ns| (0..=N_TABLE[ns as usize] as u64).map(move |e| ns * 64 + e)).collect(),
+        // k present vertices in a store of exactly k slots (every slot alive) — and of k+7 slots
+        "vertex-count" => {
+            // per-call full observation makes a point cost O(k^2): the heavier oracles sample the
+            // counts around the word/byte boundaries in the quick tier and take every count in thorough
+            let heavy = matches!(prop, "C03" | "C04" | "C08" | "C09" | "C10" | "C14" | "C19");
+            let mut v: Vec<u64> = if heavy && !thorough {
+                (1..=40).chain(60..=68).chain(124..=132).chain(250..=260).chain(if prop == "C09" { 0..0 } else { 508..516 }).collect()
+            } else {
+                (1..=if prop == "C09" { 300 } else if thorough { 1100 } else { 600 }).collect()
+            };
+            v.dedup();
+            v.iter().flat_map(|k| [*k * 2, *k * 2 + 1]).collect()
+        }
+        // a group of m members, u of them holding unread data; put after/before binding; x = variant*1024 + m*32 + u
+        "unread-count" => (0..4u64).flat_map(|var| (2..=16u64).flat_map(move |m| (0..=m).map(move |u| var * 1024 + m * 32 + u))).collect(),
+        // images above 64 MiB: a 1.5 M-slot store; 5 x 14 MiB of data; 70 x 1 MiB of data
+        "big-image" => if prop == "C08" { vec![0, 1, 2] } else { vec![] },
         "char" => {
             let step = if thorough { 61 } else { 997 };
             let text_parsed = matches!(prop, "C18" | "C20" | "C14");
             (0x21u32..0x300)
                 .chain((0x300u32..0x11_0000).step_by(step))
                 .filter_map(char::from_u32)
-                .filter(|c| if text_parsed { c.is_alphanumeric() && *c != 'α' && *c != 'ν' } else { !c.is_whitespace() && !c.is_control() })
+                .filter(|c| if text_parsed { c.is_alphanumeric() && *c != 'α' && *c != 'ν' } else if prop == "C03" || prop == "C04" { !c.is_whitespace() && !c.is_control() } else { *c != ' ' })
                 .map(|c| c as u64)
                 .collect()
         }
@@ -213,6 +230,67 @@ pub fn build(dim: &str, x: u64) -> Option<Scenario> {
             calls.push(Call::Kids(0));
             calls.push(Call::Slice(0));
         }
+        "vertex-count" => {
+            let k = (x / 2) as usize;
+            let cap = if x % 2 == 0 { k } else { k + 7 };
+            cfg = Cfg { n: 2, cap };
+            for v in 0..k {
+                calls.push(Call::Add(cap - 1 - v));
+            }
+            // the last one holds a heap datum, the first one an inline datum; no groups needed
+            calls.push(Call::Put(cap - k, pat(11, 21)));
+            calls.push(Call::Put(cap - 1, vec![5]));
+            if k >= 2 {
+                calls.push(bind(cap - 1, cap - k, Lab::Str("last".into())));
+            }
+        }
+        "unread-count" => {
+            let (var, m, u) = ((x / 1024) as usize, ((x % 1024) / 32) as usize, (x % 32) as usize);
+            cfg = Cfg { n: 2, cap: m + 3 };
+            for v in 0..m {
+                calls.push(Call::Add(v));
+            }
+            // var bit 0: data before binding; bit 1: star instead of chain is impossible with N = 2, so reverse the edge direction
+            if var & 1 == 1 {
+                for v in 0..u {
+                    calls.push(Call::Put(m - 1 - v, pat(1 + v, v as u8)));
+                }
+            }
+            for v in 0..m - 1 {
+                calls.push(if var & 2 == 2 { bind(v + 1, v, Lab::Alpha(0)) } else { bind(v, v + 1, Lab::Alpha(0)) });
+            }
+            if var & 1 == 0 {
+                for v in 0..u {
+                    calls.push(Call::Put(m - 1 - v, pat(1 + v, v as u8)));
+                }
+            }
+            // read them in put order: the group must live until the last one is read
+            for v in 0..u {
+                calls.push(Call::Data(m - 1 - v));
+            }
+        }
+        "big-image" => match x {
+            0 => {
+                cfg = Cfg { n: 1, cap: 1_500_000 };
+                calls.extend([Call::Add(0), Call::Add(1_499_999), bind(0, 1_499_999, Lab::Alpha(0)), Call::Put(1_499_999, pat(9, 1))]);
+            }
+            1 => {
+                cfg = Cfg { n: 2, cap: 8 };
+                for v in 0..5 {
+                    calls.push(Call::Add(v));
+                    calls.push(Call::Put(v, pat(14 << 20, v as u8)));
+                }
+                calls.push(bind(0, 1, Lab::Alpha(0)));
+            }
+            _ => {
+                cfg = Cfg { n: 2, cap: 80 };
+                for v in 0..70 {
+                    calls.push(Call::Add(v));
+                    calls.push(Call::Put(v, pat((1 << 20) + v, v as u8)));
+                }
+                calls.push(bind(0, 1, Lab::Alpha(0)));
+            }
+        },
         "char" => {
             let c = char::from_u32(x as u32)?;
             cfg = Cfg { n: 3, cap: 5 };
@@ -287,6 +365,9 @@ pub fn check_point(prop: &'static str, dim: &str, x: u64) -> Option<Failure> {
 /// None = the point cannot be expressed for this property (skipped and counted)
 pub fn judge_point(prop: &'static str, dim: &str, x: u64) -> Option<Option<Failure>> {
     let mut s = build(dim, x)?;
+    if dim == "big-image" {
+        return Some(big_image(&s, x));
+    }
     // calls outside the limits (judged on the model) are dropped, never executed
     {
         let mut r = Runner::new(s.cfg);
@@ -366,6 +447,46 @@ pub fn judge_point(prop: &'static str, dim: &str, x: u64) -> Option<Option<Failu
     }))
 }
 
+/// Images above 64 MiB: only what save+load must preserve is looked at (keys, kids, data
+/// bytes) — printing such a graph is not part of the check.
+fn big_image(s: &Scenario, x: u64) -> Option<Failure> {
+    use std::panic::{catch_unwind, AssertUnwindSafe};
+    let fail = |kind: &str, d: String| Some(Failure { prop: "C08".into(), kind: kind.into(), step: x as usize, detail: format!("sweep big-image = {x} ({}): {d}", ["1.5 M slots", "5 x 14 MiB of data", "70 x 1 MiB of data"][x as usize % 3]) });
+    let mut g = crate::graph::new_graph(s.cfg.n, s.cfg.cap);
+    for c in &s.calls {
+        match c {
+            Call::Add(v) => g.add(*v),
+            Call::Bind { a, b, l, .. } => g.bind(*a, *b, l.direct()),
+            Call::Put(v, d) => g.put(*v, &crate::graph::hex_of(d)),
+            _ => {}
+        }
+    }
+    crate::campaign::touch();
+    let p = crate::interp::tmp_file("big");
+    let res = catch_unwind(AssertUnwindSafe(|| g.save(&p).and_then(|_| g.load_same(&p))));
+    let _ = std::fs::remove_file(&p);
+    crate::campaign::touch();
+    match res {
+        Err(e) => fail("twin.panic", format!("save/load panicked: {}", crate::interp::panic_text(e))),
+        Ok(Err(e)) => fail("twin.error", format!("save/load failed: {e:#}")),
+        Ok(Ok(mut g2)) => {
+            if g.keys() != g2.keys() {
+                return fail("twin.keys_differ", format!("{} keys before, {} after", g.keys().len(), g2.keys().len()));
+            }
+            for v in g.keys() {
+                if g.kids(v) != g2.kids(v) {
+                    return fail("twin.query_differs", format!("kids({v}) differ"));
+                }
+                let (a, b) = (g.data(v).map(|h| h.to_vec()), g2.data(v).map(|h| h.to_vec()));
+                if a != b {
+                    return fail("twin.result_differs", format!("data({v}): {:?} bytes before, {:?} after", a.map(|x| x.len()), b.map(|x| x.len())));
+                }
+            }
+            None
+        }
+    }
+}
+
 pub fn dims_for(prop: &str) -> Vec<&'static str> {
     DIMS.iter()
         .copied()
@@ -374,6 +495,7 @@ pub fn dims_for(prop: &str) -> Vec<&'static str> {
             ("C08" | "C18", "datum-length") => false,
             // every cut point of every image: keep the images small
             ("C09", "id") => false,
+            (p, "big-image") => p == "C08",
             _ => true,
         })
         .collect()
